@@ -433,6 +433,9 @@ func (d *Descriptor) readJSONObjectKV(out Outputter, data []byte) (n int, err er
 	var (
 		jType  jsonType
 		offset int
+		// A nil value has a type but no value field, so we have to output it
+		// once we know there's nothing more in the entry
+		valueSeen bool
 	)
 
 	for offset < len(data) {
@@ -465,6 +468,7 @@ func (d *Descriptor) readJSONObjectKV(out Outputter, data []byte) (n int, err er
 			jType = jsonType(v)
 			offset += n
 		case 3:
+			valueSeen = true
 			switch jType {
 			case jsonTypeString:
 				l, n := plenccore.ReadVarUint(data[offset:])
@@ -543,6 +547,10 @@ func (d *Descriptor) readJSONObjectKV(out Outputter, data []byte) (n int, err er
 		default:
 			return 0, fmt.Errorf("unexpected json field index %d", index)
 		}
+	}
+
+	if jType == jsonTypeNil && !valueSeen {
+		out.Raw("null")
 	}
 
 	return offset, nil
